@@ -1,14 +1,14 @@
 SPECIFICATION Spec
 CONSTANTS
   Defects = {}
-  Bases <- Q_Bases
-  Contexts <- Q_Contexts
-  CtxOk <- Q_CtxOk
+  Bases <- T_Bases
+  Contexts <- T_Contexts
+  CtxOk <- All_CtxOk
   U32Classes <- C_U32
   U16Classes <- C_U16
   NameClasses <- C_Name
-  Pairs = FALSE
-  CutDevs = FALSE
+  Pairs = TRUE
+  CutDevs = TRUE
 CONSTRAINT Emit
 INVARIANTS InvRoundTrip InvRejects InvEnd InvConsume InvAlloc
 CHECK_DEADLOCK FALSE
